@@ -513,6 +513,48 @@ func (z *zoneFlow) refine(d *dbm, cond ssa.Value, taken bool) {
 			}
 			return
 		}
+		// v != nil where v is the result of an unexported helper every non-nil result of which is a slice x[p:p+k]: len(v) >= k
+		if (c.Op == token.EQL || c.Op == token.NEQ) && z.p != nil {
+			var v ssa.Value
+			if isNilConst(c.Y) {
+				v = c.X
+			} else if isNilConst(c.X) {
+				v = c.Y
+			}
+			if v != nil && (c.Op == token.NEQ) == g.Pol {
+				src := v
+				for k := 0; k < 4; k++ { // through phis that merge the call result with itself / nil
+					ph, isPhi := src.(*ssa.Phi)
+					if !isPhi {
+						break
+					}
+					var only ssa.Value
+					for _, e := range ph.Edges {
+						if isNilConst(e) || e == ssa.Value(ph) {
+							continue
+						}
+						if only != nil && only != e {
+							only = nil
+							break
+						}
+						only = e
+					}
+					if only == nil {
+						break
+					}
+					src = only
+				}
+				if call, isC := src.(*ssa.Call); isC {
+					if h := staticCallee(&call.Call); h != nil && z.p.InModule(h) && !z.p.Exported(h) && len(h.Blocks) > 0 {
+						if k := minLenOfNonNilResult(h); k > 0 {
+							if t := z.lenTerm(v); t.ok && t.n < d.n {
+								d.add(0, t.n, t.off-k)
+							}
+						}
+					}
+				}
+			}
+		}
 		if !isIntType(c.X.Type()) {
 			return
 		}
@@ -919,4 +961,49 @@ func predicatePrefixFacts(p *Prog, h *ssa.Function) []prefixFact {
 	}
 	p.facts[key] = out
 	return out
+}
+
+// minLenOfNonNilResult: every return of h (one slice result) is the nil constant or a slice expression x[p:p+k] with constant k >= 1;
+// returns the smallest such k (0 if h is not of that form).
+func minLenOfNonNilResult(h *ssa.Function) int64 {
+	if h.Signature.Results().Len() != 1 {
+		return 0
+	}
+	if _, ok := h.Signature.Results().At(0).Type().Underlying().(*types.Slice); !ok {
+		return 0
+	}
+	min := int64(0)
+	ok := true
+	eachInstr(h, func(b *ssa.BasicBlock, in ssa.Instruction) {
+		ret, isRet := in.(*ssa.Return)
+		if !isRet {
+			return
+		}
+		rv := ret.Results[0]
+		if isNilConst(rv) {
+			return
+		}
+		sl, isSl := rv.(*ssa.Slice)
+		if !isSl || sl.Low == nil || sl.High == nil {
+			ok = false
+			return
+		}
+		bo, isB := sl.High.(*ssa.BinOp)
+		if !isB || bo.Op != token.ADD || bo.X != sl.Low {
+			ok = false
+			return
+		}
+		k, isK := constInt(bo.Y)
+		if !isK || k < 1 {
+			ok = false
+			return
+		}
+		if min == 0 || k < min {
+			min = k
+		}
+	})
+	if !ok {
+		return 0
+	}
+	return min
 }
